@@ -118,6 +118,22 @@ theorem per_thread_order_counterexample :
     s.abandons = 0 ∧ gotAll s.log = [(8, 2), (7, 1)] := by
   decide
 
+/-! ### the self pipe and the run queue of a loop are FIFO -/
+
+/-- janet_ev_handle_selfpipe: the message handed to janet_thread_chan_cb is the OLDEST message of that loop's pipe, and the
+    rest of the pipe keeps its order (whatever the other loops' messages are doing in between) -/
+theorem pipe_fifo (s : St) (i : Nat) (m : Msg) (rest : List Msg) (hx : extract i s.flight = some (m, rest))
+    (hen : (s.flight.take i).all (fun m' => m'.loop != m.loop) = true) :
+    s.flight.filter (fun y => y.loop == m.loop) = m :: rest.filter (fun y => y.loop == m.loop) :=
+  extract_first_of_key Msg.loop s.flight i m rest hx hen
+
+/-- janet_loop1: the task that is run is the OLDEST task of that loop's run queue (janet_q_push at the tail, janet_q_pop at the
+    head), the rest keeps its order -/
+theorem runq_fifo (s : St) (i : Nat) (k : Task) (rest : List Task) (hx : extract i s.runq = some (k, rest))
+    (hen : (s.runq.take i).all (fun k' => k'.thread != k.thread) = true) :
+    s.runq.filter (fun y => y.thread == k.thread) = k :: rest.filter (fun y => y.thread == k.thread) :=
+  extract_first_of_key Task.thread s.runq i k rest hx hen
+
 /-! ### exactly once up to the resumption of the receiving fiber -/
 
 /-- ☆ end to end: with re-dispatch and put-back, under every interleaving every accepted item is in exactly one of: the
